@@ -67,6 +67,7 @@ def run(repo, rep, tier):
     # the Open/Pull variants can be continued: each Open registers its
     # context under the pull kind DSP0200 pairs it with
     shadow_writes_follow_all_checks(repo, rep)
+    null_references_reference_nothing(repo, rep)
     from .c10 import store_writes_keyed_by_object
     store_writes_keyed_by_object(repo, rep, rep.rule(
         'C13.R14', 'every stored copy of an association instance carries '
@@ -1049,3 +1050,90 @@ def no_memoised_parsers(repo, rep, rid, relpath):
     d = probe.body[0].decorator_list[0]
     if (dotted(d.func) or '').split('.')[-1] not in CACHES:
         raise AnalysisError(rid + ' recogniser broken')
+
+
+def null_references_reference_nothing(repo, rep):
+    """C13.R15: a reference property of a stored association instance can
+    be NULL (add_cimobjects() stores what it is given; MOF allows
+    `grp = NULL`).  A NULL end references nothing: the traversal must skip
+    it.  `prop.value == instname` with prop.value None is answered by the
+    reflected CIMInstanceName.__eq__, which raises TypeError for a
+    non-path operand, and `prop.value.classname` raises AttributeError - so
+    one such instance in the namespace makes every Associators / References
+    call there fail.  Every use of `<prop>.value` that is governed by
+    `<prop>.type == 'reference'` in the traversal functions is therefore
+    also governed by a test that the value is not None."""
+    from ..cfg import stmt_facts, GuardWalker
+    r = rep.rule('C13.R15', 'the value of a reference property is used as a '
+                 'path only where it is known not to be None')
+    mp = repo.cls(MAIN, 'MainProvider')
+    n = 0
+    for name in names.ASSOC_FUNCS:
+        f = mp.methods.get(name)
+        if f is None:
+            continue
+        sf = stmt_facts(f.node)
+        for st, (facts, _t) in sf.items():
+            atoms = [a for t0, p0 in facts for a in GuardWalker._atoms(t0, p0)]
+            refvars = {norm(t.left.value) for t, pol in atoms
+                       if isinstance(t, ast.Compare) and
+                       len(t.ops) == 1 and
+                       ((isinstance(t.ops[0], ast.Eq) and pol) or
+                        (isinstance(t.ops[0], ast.NotEq) and not pol)) and
+                       isinstance(t.left, ast.Attribute) and
+                       t.left.attr == 'type' and
+                       const_str(t.comparators[0]) == 'reference'}
+            if not refvars:
+                continue
+            # the expressions evaluated by this statement itself
+            if isinstance(st, (ast.If, ast.While)):
+                exprs = [st.test]
+            elif isinstance(st, ast.For):
+                exprs = [st.iter]
+            elif isinstance(st, (ast.Try, ast.With)):
+                exprs = []
+            else:
+                exprs = [st]
+            for v in refvars:
+                uses = [x for e in exprs for x in ast.walk(e)
+                        if isinstance(x, ast.Attribute) and x.attr == 'value'
+                        and norm(x.value) == v]
+                if not uses:
+                    continue
+                # a use inside `is None` / `is not None` is the test itself
+                tests = [c for e in exprs for c in ast.walk(e)
+                         if isinstance(c, ast.Compare) and len(c.ops) == 1 and
+                         isinstance(c.ops[0], (ast.Is, ast.IsNot)) and
+                         isinstance(c.comparators[0], ast.Constant) and
+                         c.comparators[0].value is None]
+                uses = [u for u in uses if not any(u is t.left for t in tests)]
+                if not uses:
+                    continue
+                n += 1
+                r.sites += 1
+                r.functions.add(f.fq)
+                vv = v + '.value'
+                ok = any(
+                    (isinstance(t, ast.Compare) and len(t.ops) == 1 and
+                     norm(t.left) == vv and
+                     isinstance(t.comparators[0], ast.Constant) and
+                     t.comparators[0].value is None and
+                     ((isinstance(t.ops[0], ast.IsNot) and pol) or
+                      (isinstance(t.ops[0], ast.Is) and not pol))) or
+                    (norm(t) == vv and pol)
+                    for t, pol in atoms)
+                r.ob(ok, '%s|%s' % (f.qualname, norm(uses[0], 40)) +
+                     '|%d' % getattr(st, 'lineno', 0))
+                if not ok:
+                    rep.finding(r, f.qualname, norm(
+                        st.test if isinstance(st, (ast.If, ast.While))
+                        else st, 70), 'null-reference-used', MAIN,
+                        st.lineno,
+                        '%s is used as an instance path here without a test '
+                        'that it is not None: a stored association instance '
+                        'with a NULL reference makes the traversal raise '
+                        'TypeError / AttributeError for every source in '
+                        'that namespace' % vv)
+    if n < 1:
+        raise AnalysisError('C13.R15: only %d uses of reference values in '
+                            'the traversal functions' % n)
